@@ -61,19 +61,34 @@ impl SymbolSnapshot {
 impl BinaryOp {
     fn apply_i64(&self, lhs: i64, rhs: i64) -> i64 {
         match self {
-            BinaryOp::Add => lhs + rhs,
-            BinaryOp::Sub => lhs - rhs,
-            BinaryOp::Mul => lhs * rhs,
+            // 64-bit two's complement arithmetic: wraps instead of aborting the assembler
+            BinaryOp::Add => lhs.wrapping_add(rhs),
+            BinaryOp::Sub => lhs.wrapping_sub(rhs),
+            BinaryOp::Mul => lhs.wrapping_mul(rhs),
             BinaryOp::Div => match rhs {
                 0 => 0,
-                _ => lhs / rhs,
+                _ => lhs.wrapping_div(rhs),
             },
             BinaryOp::Mod => match rhs {
                 0 => 0,
-                _ => lhs % rhs,
+                _ => lhs.wrapping_rem(rhs),
             },
-            BinaryOp::Shl => lhs << rhs,
-            BinaryOp::Shr => lhs >> rhs,
+            BinaryOp::Shl => {
+                if (0..64).contains(&rhs) {
+                    lhs.wrapping_shl(rhs as u32)
+                } else {
+                    0
+                }
+            }
+            BinaryOp::Shr => {
+                if (0..64).contains(&rhs) {
+                    lhs.wrapping_shr(rhs as u32)
+                } else if lhs < 0 {
+                    -1
+                } else {
+                    0
+                }
+            }
             BinaryOp::Xor => lhs ^ rhs,
             BinaryOp::Eq => (lhs == rhs) as i64,
             BinaryOp::Ne => (lhs != rhs) as i64,
@@ -163,7 +178,7 @@ impl<'a> Evaluator<'a> {
                         SymbolData::Number(mut number) => {
                             // `!-x` is written (and parsed) as "not (minus x)", so negate first
                             if flags.contains(ExpressionFactorFlags::NEG) {
-                                number = -number;
+                                number = number.wrapping_neg();
                             }
                             if flags.contains(ExpressionFactorFlags::NOT) {
                                 if number == 0 {
